@@ -100,6 +100,15 @@ def loops():
                 p.emit([p.call(_co(p, "resume"), [p.id("c1")])]), p.while_(p.true(), p.block(tick(p)))]
     mk("host_cancels_inside_nested_coroutines", host_cancels_inside_nested_coroutines)
 
+    def host_cancels_main(p):     # the host cancels from a host function called by the main chunk itself
+        return [p.local(["n"], [p.num(0)]), p.emit([p.str("start")]), p.callstat(p.call(p.id("gcancel"), [])), p.while_(p.true(), p.block(tick(p)))]
+    mk("host_cancels_in_main_chunk", host_cancels_main)
+
+    def host_cancels_in_callee(p):
+        f = p.func([], p.block([p.callstat(p.call(p.id("gcancel"), [])), p.ret([p.num(1)])]))
+        return [p.local(["n"], [p.num(0)]), p.localfunction("f", f), p.emit([p.str("start"), p.call(p.id("f"), [])]), p.while_(p.true(), p.block(tick(p)))]
+    mk("host_cancels_in_lua_callee", host_cancels_in_callee)
+
     def terminating(p):
         return [p.local(["n"], [p.num(0)]), p.fornum("i", p.num(1), p.num(12), 0, p.block(tick(p, every=2))),
                 p.emit([p.str("done"), p.call(p.id("pcall"), [p.func([], p.block([p.ret([p.num(1)])]))])]), p.ret([p.id("n")])]
